@@ -24,7 +24,7 @@ Fresh sub-agents, given only one property's text and a scratch git worktree of /
 and its test suite still passes, with a demonstration that fails with the change and passes
 without.  This was done three times for every property (ids `Cxx-1/2` = first round, `Cxx-3/4` =
 second round, `Cxx-5/6` = third round with a prompt that steers towards the less central code
-paths, presets and options) and a fourth time (`Cxx-7/8`, prompt asking for the
+paths, presets and options) a fourth time (`Cxx-7/8`) and, for six properties, a fifth time (`Cxx-9/10`, prompt asking for the
 places a main-path checker is least likely to reach; that round produced mostly re-inventions, so
 only its new ideas were kept and the round was not extended; agents of later rounds sometimes re-invented an earlier idea, which is
 noted, and exact duplicates of the third round were not kept).  Every change below was confirmed by
@@ -39,7 +39,7 @@ All %d changes are caught by the quick tier as it stands (last sweep after the f
 strengthening).  %d of them were NOT caught, or only as a broken tie without a failing input, or
 only statistically, by the checks as they were when the change was first run; every miss was a gap
 in a generator or an absent oracle/tie, never in a theorem, and was closed by extending the check
-(column "history").  The miss rate fell from round to round (15 of 38, 8 of 38, 5 of 30; the fourth round's 17 new ideas had 6 misses).  The
+(column "history").  The miss rate fell from round to round (15 of 38, 8 of 38, 5 of 30; the 17 new ideas of the fourth round had 6 misses, the 5 of the fifth round 2).  The
 larger extensions that came out of this: the content tie of C09 (installed scales = bit-exact
 estimate over the model's foreground window), the chain-alone reference of C10, the mirror-rebuild
 oracle of C01, the slow-recorder command storms of C11, the default-feature harness of C19, the
